@@ -29,7 +29,7 @@ class CaseTimeout(Exception):
     """the library did not return within the per-case watchdog (an endless loop is reported like an exception)"""
 
 
-_WATCH = {"limit": 6.0}
+_WATCH = {"limit": 6.0, "fired": False}
 
 
 def _on_alarm(signum, frame):
@@ -41,6 +41,7 @@ def _on_alarm(signum, frame):
 
     if frame is not None and frame.f_code.co_filename.startswith(SRC):
         signal.setitimer(signal.ITIMER_VIRTUAL, _WATCH["limit"])  # the rest of the case gets a fresh budget
+        _WATCH["fired"] = True
         raise CaseTimeout("no result within the per-case watchdog")
     signal.setitimer(signal.ITIMER_VIRTUAL, 0.02)
 
@@ -72,8 +73,12 @@ def guarded(mod, case):
     """run one case under a CPU-time watchdog (module attribute CASE_TIMEOUT, default 6 s).  A case
     that trips it is run again with ten times the budget; only a repeated trip is reported."""
     limit = getattr(mod, "CASE_TIMEOUT", 6.0)
+    _WATCH["fired"] = False
     res = _watched(mod, case, limit)
-    if any(v.kind == "hangs-or-runs-away" for v in res.violations):
+    # whatever the property made of an interrupted run (it may have caught the interruption like any other exception
+    # and judged half a result), a case the watchdog cut into is judged again with ten times the budget
+    if _WATCH["fired"] or any("hangs-or-runs-away" in v.kind for v in res.violations):
+        _WATCH["fired"] = False
         res = _watched(mod, case, 10 * limit)
     return res
 
@@ -174,7 +179,7 @@ def _run_shard(prop, idx, tier, seed, t_end):
             if entry is not None:
                 st["known"][entry["id"]] += 1
                 continue
-            if v.kind == "hangs-or-runs-away":
+            if "hangs-or-runs-away" in v.kind:
                 st["hangs"] = st.get("hangs", 0) + 1
             size = len(json.dumps(case, default=str))
             cur = st["new"].get(sig)
